@@ -1,4 +1,5 @@
 #!/bin/bash
+export VERIF_SCRATCH_EVIDENCE=${VERIF_SCRATCH_EVIDENCE:-/tmp/verif_seed_evidence}   # evidence of runs against a seeded tree is not evidence about /repo
 # seed_diagonal.sh: every seeded change against the check of the property it was written for (applied to the repository
 # the checks read — /repo, or $HLS_REPO for a background run on a snapshot — and undone afterwards);
 # writes seeded/diagonal.tsv: seed, check, exit, #VIOLATION, #no-failing-input-found
